@@ -52,8 +52,10 @@ def one_pair(args):
             return dict(name=label, seed=seed, error=type(e).__name__)
         vals = [f_true({k: row[k] for k in space}) for row in opt.results_mang.results_list]
         half = vals[len(vals) // 2:]
-        res.append((float(np.mean(half)), [tuple(int(x) for x in p) for p in opt.pos_l]))
-    return dict(name=label, seed=seed, up=res[0][0], down=res[1][0], same_points=res[0][1] == res[1][1])
+        res.append((float(np.mean(half)), [tuple(int(x) for x in p) for p in opt.pos_l], vals))
+    # a run that ends by evaluating ONE point whose score is exactly 0 over and over (LipschitzOptimizer's masked zero entries)
+    stuck0 = any(len(set(r_[1][-8:])) == 1 and len(r_[1]) >= 8 and r_[2][-1] == 0 for r_ in res)
+    return dict(name=label, seed=seed, up=res[0][0], down=res[1][0], same_points=res[0][1] == res[1][1], stuck0=stuck0)
 
 
 def sign_test(r, quick, names, seeds, variants=True):
@@ -138,7 +140,13 @@ def run():
                 frac = fr()
             summary[name] = "%d/%d pairs favour f (%.0f %%)" % (sum(1 for x in ok if x["up"] > x["down"]), len(ok), 100 * frac)
             if frac < 0.7:
-                fails.append(dict(signature=f"C09|{name}|not-directed", detail=f"paired sign test: {summary[name]}", case=dict(opt=name, seeds=[x["seed"] for x in ok][:10], results=[(round(x["up"], 2), round(x["down"], 2)) for x in ok][:10])))
+                sig = f"C09|{name}|not-directed"
+                free = [x for x in ok if not x.get("stuck0")]
+                if name.startswith("LipschitzOptimizer") and len(free) < len(ok) and free and sum(1 for x in free if x["up"] > x["down"]) / len(free) >= 0.9:
+                    # every pair that does not favour f ends stuck at a zero-score sample: the known mechanism, nothing else
+                    sig += "|only-runs-stuck-at-a-zero-score-sample"
+                    summary[name] += "; without the %d runs stuck at a zero-score sample: %d/%d" % (len(ok) - len(free), sum(1 for x in free if x["up"] > x["down"]), len(free))
+                fails.append(dict(signature=sig, detail=f"paired sign test: {summary[name]}", case=dict(opt=name, seeds=[x["seed"] for x in ok][:10], results=[(round(x["up"], 2), round(x["down"], 2)) for x in ok][:10])))
             keys.add((name, "directed" if frac >= 0.9 else ("margin" if frac >= 0.7 else "not-directed")))
         return n, fails, keys, summary
 
